@@ -92,21 +92,25 @@ def gen_linear(rng, dct):
 
 
 def gen_texttable(rng, dct):
-    n = dct.bitlen
-    top = (1 << n) - 1
-    scales, lo = [], 0
+    """disjoint scales over the integers of the coded type (signed types: also below 0); scales that cover a range may name the
+    internal value to be encoded for their text by COMPU-INVERSE-VALUE (any value of the range, 0 where the range contains it)"""
+    bottom, top = int_range(dct.bt, dct.enc if dct.enc in ("1C", "2C", "SM") else None, dct.bitlen)
+    scales, inv = [], {}
+    lo = max(bottom, rng.choice([0, 0, 1]) if bottom == 0 else rng.choice([bottom, -5, -3, -2, -1, -1, 0, 1]))
     for i in range(rng.randint(1, 4)):
+        if i:
+            lo += rng.choice([0, 0, 1, 2])
         if lo > top:
             break
-        lo = lo + rng.choice([0, 0, 1, 2]) if i else rng.choice([0, 0, 1])
-        if lo > top:
-            break
-        hi = min(top, lo + rng.choice([0, 0, 0, 1, 3]))
-        scales.append((lo, hi, rng.choice(["off", "on", "err", "Zustand", "x y", "ä€", "n/a"]) + str(i)))
+        hi = min(top, lo + rng.choice([0, 0, 0, 1, 3, 4]))
+        t = rng.choice(["off", "on", "err", "Zustand", "x y", "ä€", "n/a"]) + str(i)
+        scales.append((lo, hi, t))
+        if hi > lo and rng.random() < 0.6:
+            inv[t] = rng.choice(([0, 0] if lo <= 0 <= hi else []) + [lo, hi, rng.randint(lo, hi)])
         lo = hi + 1
     if len(scales) > 1 and rng.random() < 0.3:
         rng.shuffle(scales)         # declaration order of disjoint scales is immaterial
-    return D.TextTable(scales), rng.choice(["A_UNICODE2STRING", "A_UTF8STRING", "A_ASCIISTRING"])
+    return D.TextTable(scales, inv or None), rng.choice(["A_UNICODE2STRING", "A_UTF8STRING", "A_ASCIISTRING"])
 
 
 def gen_simple_dop(g, atomic_only=False, key_for_paramlen=None):
@@ -139,7 +143,7 @@ def gen_simple_dop(g, atomic_only=False, key_for_paramlen=None):
         r = rng.random()
         if r < 0.15:
             compu, phys = gen_linear(rng, dct)
-        elif r < 0.25 and dct.bt == "A_UINT32" and dct.bitlen <= 16:
+        elif r < 0.25 and dct.bitlen <= 16 and (dct.bt == "A_UINT32" or dct.bitlen >= 2):
             compu, phys = gen_texttable(rng, dct)
     return D.SimpleDop(dct, phys, compu)
 
@@ -893,6 +897,39 @@ def enum_struct_offsets():
                         inner = D.Struct([D.value("h", D.u8()), D.value("in_", inner)], bytesize=1 + content + pad + pad)
                     ps = [D.value(f"o{i}", D.u8()) for i in range(off)] + [D.value("s", inner), D.value("y", D.u8())]
                     yield D.Composite(f"S{n}", "request", ps)
+
+
+def enum_texttables():
+    """TEXTTABLE DOPs over small signed / unsigned integers in `[sid, x, y:u8]`: range scales below, across and above 0 in
+    several declaration orders x which internal value COMPU-INVERSE-VALUE names (absent, lower, upper, 0 where the range has
+    it, a middle value); to be encoded with every text of the table"""
+    n = 0
+    types = [("A_INT32", None, 8, None), ("A_INT32", "SM", 8, None), ("A_INT32", "1C", 6, None), ("A_INT32", "2C", 16, False), ("A_UINT32", None, 8, None),
+             ("A_UINT32", None, 12, False)]
+    patterns = [[(-2, 2), (3, 20), (-20, -3)], [(-8, -1), (0, 0), (1, 7)], [(-1, 0), (1, 1)], [(0, 3), (4, 4), (5, 9)], [(1, 2), (3, 3)], [(-31, 31)],
+                [(2, 2), (0, 1), (3, 200)]]
+    for bt, enc, bl, hl in types:
+        bottom, top = int_range(bt, enc, bl)
+        for pat in patterns:
+            if any(lo < bottom or hi > top for lo, hi in pat):
+                continue
+            for mode in ("absent", "lower", "upper", "zero", "middle", "mixed"):
+                n += 1
+                scales, inv = [], {}
+                for i, (lo, hi) in enumerate(pat):
+                    t = f"t{i}"
+                    scales.append((lo, hi, t))
+                    m = mode if mode != "mixed" else ("zero", "absent", "upper")[i % 3]
+                    if m == "lower":
+                        inv[t] = lo
+                    elif m == "upper":
+                        inv[t] = hi
+                    elif m == "zero" and lo <= 0 <= hi:
+                        inv[t] = 0
+                    elif m == "middle":
+                        inv[t] = (lo + hi) // 2
+                dop = D.SimpleDop(D.Std(bt, bl, enc, hl), "A_UNICODE2STRING", D.TextTable(scales, inv or None))
+                yield D.Composite(f"T{n}", "request", [D.sid(), D.value("x", dop), D.value("y", D.u8())])
 
 
 def enum_mux_orders():
